@@ -10,6 +10,8 @@ use another_rxrust::prelude::schedulers::{DefaultScheduler, IScheduler, NewThrea
 use rxsim_rt as rt;
 use rxsim_rt::prng::Rng;
 use rxsim_rt::{Origin, RunCfg};
+#[allow(unused_imports)]
+use rxsim_rt::TaskInfo;
 use std::sync::{Arc, Mutex};
 
 pub struct C08;
@@ -58,6 +60,8 @@ enum Op {
   Post { id: i64, probes: i64, inner: Option<Box<Op>> },
   Abort,
   Yield,
+  /// the caller idles for some virtual time
+  Sleep(i64),
 }
 
 fn op_from_json(j: &Json) -> Option<Op> {
@@ -72,6 +76,7 @@ fn op_from_json(j: &Json) -> Option<Op> {
     }),
     "abort" => Some(Op::Abort),
     "yield" => Some(Op::Yield),
+    "sleep" => Some(Op::Sleep(j.i("ms").clamp(1, 10_000))),
     _ => None,
   }
 }
@@ -85,11 +90,8 @@ fn collect_ids(op: &Op, out: &mut Vec<i64>) {
   }
 }
 
-fn worker_steps(worker: Option<usize>) -> u64 {
-  match worker {
-    Some(w) => rt::tasks().get(w).map(|t| t.steps).unwrap_or(0),
-    None => 0,
-  }
+fn worker_steps(_worker: Option<usize>) -> u64 {
+  rt::tasks().iter().filter(|t| t.origin == Origin::Library).map(|t| t.steps).sum()
 }
 
 fn do_op(sched: &Sched, l: &Log, op: &Op, worker: Option<usize>, inside: bool) {
@@ -118,6 +120,7 @@ fn do_op(sched: &Sched, l: &Log, op: &Op, worker: Option<usize>, inside: bool) {
       log(l, Ev::AbortRet { by: me, worker_steps: worker_steps(worker) });
     }
     Op::Yield => rt::probe("c08-caller-yield"),
+    Op::Sleep(ms) => rt::thread::sleep(std::time::Duration::from_millis(*ms as u64)),
   }
 }
 
@@ -162,6 +165,9 @@ impl Family for C08 {
           ops.push(Json::obj(vec![("k", Json::str("abort"))]));
         } else if r < abort_rate + 10 {
           ops.push(Json::obj(vec![("k", Json::str("yield"))]));
+        } else if r < abort_rate + 16 {
+          // an idle period: timers inside the scheduler (if any) may fire
+          ops.push(Json::obj(vec![("k", Json::str("sleep")), ("ms", Json::Int(*rng.pick(&[5i64, 300, 1500, 4000])))]));
         } else {
           ops.push(gen_post(rng, 0));
         }
@@ -217,6 +223,7 @@ impl Family for C08 {
       let sched = if use_default { Sched::Def(DefaultScheduler::new()) } else { Sched::New(NewThreadScheduler::new()) };
       let worker = rt::tasks().iter().find(|t| t.origin == Origin::Library).map(|t| t.id);
       *wc.lock().unwrap() = worker;
+      let _ = worker; // may be None: a scheduler is free to start its worker lazily
       let mut hs = Vec::new();
       for (i, ops) in callers.into_iter().enumerate() {
         let (s2, l2) = (sched.clone(), l.clone());
@@ -229,13 +236,18 @@ impl Family for C08 {
       for h in hs {
         let _ = h.join();
       }
+      // every thread the scheduler itself started counts as "the worker thread(s)"
+      let summary = |t: &[rt::TaskInfo]| -> (bool, u64) {
+        let libs: Vec<&rt::TaskInfo> = t.iter().filter(|x| x.origin == Origin::Library).collect();
+        (libs.iter().all(|x| x.finished), libs.iter().map(|x| x.steps).sum())
+      };
       let t = rt::quiesce();
-      let (fin, st) = worker.and_then(|w| t.get(w)).map(|t| (t.finished, t.steps)).unwrap_or((true, 0));
+      let (fin, st) = summary(&t);
       log(&l, Ev::Quiesce { n: 1, worker_finished: fin, worker_steps: st });
       // clean stop so that a legitimately parked worker does not outlive the run
       sched.abort();
       let t = rt::quiesce();
-      let (fin, st) = worker.and_then(|w| t.get(w)).map(|t| (t.finished, t.steps)).unwrap_or((true, 0));
+      let (fin, st) = summary(&t);
       log(&l, Ev::Quiesce { n: 2, worker_finished: fin, worker_steps: st });
     });
     let worker = *worker_cell.lock().unwrap();
@@ -325,12 +337,18 @@ fn check(evs: &[(u64, Ev)], res: &rt::RunResult, use_default: bool, worker: Opti
     }
     return v;
   }
-  // single runner, distinct from the poster
+  // one runner thread, started by the scheduler, distinct from the posters
+  let library: Vec<usize> = res.tasks.iter().filter(|t| t.origin == Origin::Library).map(|t| t.id).collect();
+  let runners: std::collections::BTreeSet<usize> = starts.values().flat_map(|s| s.iter().map(|x| x.1)).collect();
+  if runners.len() > 1 {
+    v.push(Violation::new("several-worker-threads", blame, format!("tasks of one scheduler ran on {} different threads: {:?}", runners.len(), runners)));
+  }
+  let _ = worker;
   for (id, st) in &starts {
     for (_, runner) in st {
       let poster = inv.get(id).map(|x| (x.1, x.2));
-      if Some(*runner) != worker {
-        v.push(Violation::new("wrong-thread", blame, format!("task {} ran on task {} but the worker is {:?}", id, runner, worker)));
+      if !library.contains(runner) {
+        v.push(Violation::new("wrong-thread", blame, format!("task {} ran on task {} which is not a thread of the scheduler (its threads: {:?})", id, runner, library)));
       } else if let Some((p, inside)) = poster {
         if p == *runner && !inside {
           v.push(Violation::new("wrong-thread", blame, format!("task {} ran on its poster's thread {}", id, p)));
@@ -380,7 +398,7 @@ fn check(evs: &[(u64, Ev)], res: &rt::RunResult, use_default: bool, worker: Opti
             v.push(Violation::new("posted-task-never-ran", blame, format!("task {} was posted, no abort was issued, yet it had not run at quiescence (lost wake-up)", id)));
           }
         }
-        if fin {
+        if fin && !library.is_empty() {
           v.push(Violation::new("worker-exited-without-abort", blame, "worker thread finished although abort was never called".into()));
         }
       }
